@@ -24,8 +24,14 @@ static void tail(Ev &e) {
     else e.i("len", xx_len()).i("cursor", xx_cursor()).bytes("gl", "", 0).bytes("gr", "", 0).bytes("hgl", "", 0).bytes("hgr", "", 0);
 }
 static void sl_obs(Ev &e) {
-    if (kind == "sl") e.i("len", SL.len).i("cursor", SL.cursor).bytes("buf", sb + G, SL.len <= (unsigned)cap ? SL.len : cap).bytes("gl", sb, G).bytes("gr", sb + G + cap, G);
-    else e.i("len", XSL->current_size()).i("cursor", XSL->current_size() - XSL->rightsize()).bytes("buf", XSL->data(), XSL->current_size()).bytes("gl", "", 0).bytes("gr", "", 0);
+    if (kind == "sl") { e.i("len", SL.len).i("cursor", SL.cursor).bytes("buf", sb + G, SL.len <= (unsigned)cap ? SL.len : cap).bytes("gl", sb, G).bytes("gr", sb + G + cap, G);
+        // the read-only accessors; comparison strings: a terminated copy of the contents, and the same with one more character
+        size_t n = SL.len <= (unsigned)cap ? SL.len : cap; std::string own((const char *)sb + G, n), other = own + "x";
+        unsigned rs = sline_rightsize(&SL); e.i("rsize", rs).i("inright", sline_in_rightpos(&SL)).bytes("rpart", sline_rightpart(&SL), rs <= (unsigned)cap ? rs : 0)
+         .i("eq_self", sline_equal(&SL, own.c_str())).i("eq_other", sline_equal(&SL, other.c_str())).i("avail", sline_avail(&SL)).i("empty", sline_empty(&SL)).i("size", sline_size(&SL)); }
+    else { e.i("len", XSL->current_size()).i("cursor", XSL->current_size() - XSL->rightsize()).bytes("buf", XSL->data(), XSL->current_size()).bytes("gl", "", 0).bytes("gr", "", 0);
+        size_t n = XSL->current_size(); std::string own(XSL->data(), n), other = own + "x"; size_t rs = XSL->rightsize();
+        e.i("rsize", (long)rs).i("inright", XSL->in_rightpos() ? 1 : 0).bytes("rpart", XSL->rightpart(), rs <= n ? rs : 0).i("eq_self", XSL->equal(own.c_str()) ? 1 : 0).i("eq_other", XSL->equal(other.c_str()) ? 1 : 0); }
 }
 int main(int argc, char **argv) {
     xx_bind(&out, &execs, &nuls, &sig);
